@@ -151,11 +151,30 @@ static const char* inc_cb(const char* name, const char* from_file, const char* n
 }
 static void inc_free(const char* p, void* ud) { free((void*) p); }
 
-typedef struct { char names[64][48]; int n; int imported; int errors; } OBS;
+// what a scan reported: the matching rules and, for EVERY rule (matching or not), a digest of its strings' matches
+// (count, offsets, lengths) — "scan returned success" must mean exactly the fault-free matches
+typedef struct { char names[64][48]; int n; int imported; int errors; unsigned long long digest; long nmatches; } OBS;
 static int scan_cb(YR_SCAN_CONTEXT* ctx, int msg, void* data, void* ud)
 {
   OBS* o = (OBS*) ud;
   if (msg == CALLBACK_MSG_RULE_MATCHING && o->n < 64) snprintf(o->names[o->n++], 48, "%s", ((YR_RULE*) data)->identifier);
+  if (msg == CALLBACK_MSG_RULE_MATCHING || msg == CALLBACK_MSG_RULE_NOT_MATCHING)
+  {
+    YR_RULE* r = (YR_RULE*) data; YR_STRING* s; unsigned long long h = 1469598103934665603ULL;
+    for (const char* p = r->identifier; *p; p++) h = (h ^ (unsigned char) *p) * 1099511628211ULL;
+    yr_rule_strings_foreach(r, s)
+    {
+      YR_MATCH* m;
+      for (const char* p = s->identifier; *p; p++) h = (h ^ (unsigned char) *p) * 1099511628211ULL;
+      yr_string_matches_foreach(ctx, s, m)
+      {
+        h = (h ^ (unsigned long long) (m->base + m->offset)) * 1099511628211ULL;
+        h = (h ^ (unsigned long long) m->match_length) * 1099511628211ULL;
+        o->nmatches++;
+      }
+    }
+    o->digest += h;     // commutative: the order of the rule callbacks does not matter
+  }
   if (msg == CALLBACK_MSG_MODULE_IMPORTED) o->imported++;
   return CALLBACK_CONTINUE;
 }
@@ -166,6 +185,7 @@ static void obs_print(char* out, size_t cap, int rc, OBS* o)
   size_t off = 0; out[0] = 0;
   if (o->n == 0) off += snprintf(out + off, cap - off, "none");
   for (int i = 0; i < o->n && off < cap; i++) off += snprintf(out + off, cap - off, "%s%s", i ? "," : "", o->names[i]);
+  if (off < cap) snprintf(out + off, cap - off, "#%ld.%016llx", o->nmatches, o->digest);
 }
 
 static uint8_t* g_data; static size_t g_data_len;
@@ -192,6 +212,8 @@ static void load_data(void)
     g_data = (uint8_t*) malloc(l + 1); g_data_len = fread(g_data, 1, l, fh); fclose(fh);
     return;
   }
+  const char* dh = get("data", NULL);
+  if (dh) { size_t l; g_data = unhex(dh, &l); g_data_len = l; return; }
   const char* t = "xx abcdefgh yy hello world 0123456789 zz abcdefgh hello";
   g_data_len = strlen(t); g_data = (uint8_t*) malloc(g_data_len + 1); memcpy(g_data, t, g_data_len);
 }
